@@ -39,6 +39,8 @@ class Ctx:
         self.P_release = P_release
         self.tier = tier
         self.seed = seed
+        from . import names
+        self.N = names.get(P)
         self.R = common.Roots(P)
         self.instances = []
         self.assumptions = []
